@@ -192,7 +192,7 @@ Definition above (k : rid) (v0 : N) (st : store) : Prop :=
 
 Lemma step_above k v0 st o : backend_op o = true -> above k v0 st -> above k v0 (fst (step st o)).
 Proof.
-  intros Hb [Hle Hr]. pose proof (step_vsn_mono st o). split; [lia|]. intros r Hl.
+  intros Hb [Hle Hr]. pose proof (step_vsn_mono st o) as Hmono. split; [lia|]. intros r Hl.
   destruct (step_lookup_backend st o k Hb) as [H|[H|(r' & H & Hv & _)]]; rewrite H in Hl.
   - auto.
   - discriminate.
@@ -255,7 +255,7 @@ Theorem cas_exclusive st a r1 b r2 x y :
 Proof.
   intros Hvb Hb Hid Hver s1 s1' s2 H1 H2.
   rewrite forallb_app in Hb. apply andb_true_iff in Hb as [Hba Hb]. cbn in Hb.
-  assert (Hbb : forallb backend_op b = true) by (destruct (backend_op (OWrite r1)); cbn in Hb; [exact Hb|discriminate]).
+  pose proof Hb as Hbb.
   assert (Hv1 : vb s1) by (apply run_vb; assumption).
   cbn [step] in H1, H2.
   apply backend_write_out in H1 as (-> & Hacc1 & Hres1).
